@@ -489,7 +489,7 @@ func Render(toks []Tok, r *rand.Rand) (string, []int) {
 // MutateBytes applies 1..3 random byte edits.
 func MutateBytes(r *rand.Rand, src string) string {
 	b := []byte(src)
-	alpha := []byte("(){}[],;:=+-*/%<>!&|^~.\"`\\ \n01aex_")
+	alpha := []byte("(){}[],;:=+-*/%<>!&|^~.\"`\\ \n\r\t01aex_")
 	for k := 1 + r.IntN(3); k > 0 && len(b) > 0; k-- {
 		pos := r.IntN(len(b))
 		switch r.IntN(3) {
